@@ -46,7 +46,8 @@ RULE = ("(a) random dataset stacks: a harness root (tensor / PIL / (image, mask)
         "the stacks is handed to the workers without ModeWrapper on top (harness adapter serving getitem_x, stack.worker_init_fn); multi-view config lists mix KDTransform views, identity views and plain-callable views "
         "(function / callable object) in every order (plain first / middle / last); transforms are random well-typed compositions (kdv/h07_recipes.py) to depth 3 of compose / bare list / random-apply / "
         "patchwise / scheduled over every stochastic recipe; x W in {1,2,3,4} workers of one base seed + one worker of another base seed "
-        "(same rank) + one duplicate worker, K in 3..6 samples. (b) probe stacks of the same shapes on a real forked DataLoader "
+        "(same rank; the two base seeds are random 40/62-bit numbers or boundary pairs: s vs s + 2^32, congruent modulo 2^32 / 2^31 / 2^16, "
+        "differing in the high 32 bits only) + one duplicate worker, K in 3..6 samples. (b) probe stacks of the same shapes on a real forked DataLoader "
         "(W 1..4, batch 1..3, two torch seeds, InterleavedSampler.get_data_loader included). distinct by full spec; trivial = no live generator")
 ASSUMPTIONS = [
     "simulated workers reproduce torch's worker loop through torch.utils.data._utils.worker (WorkerInfo, _generate_state): "
@@ -89,7 +90,7 @@ MONITORS = ["sim_workers_observed", "live_generators_judged", "state_pairs_compa
             "concat_member_root_collators_sim_cases", "concat_member_root_collators_loader_cases",
             "seeded_and_unseeded_wrapper_from_one_config_list_cases", "loader_seeded_sibling_draws",
             "compose_edited_after_construction_sim_cases", "compose_edited_after_construction_loader_cases",
-            "xproc_stacks_compared"]
+            "xproc_stacks_compared", "boundary_base_seed_pair_sim_cases", "congruent_base_seed_loader_cases"]
 
 STEP_LIMIT = 3_000_000
 WITNESSES_PER_KEY = 4
@@ -98,8 +99,8 @@ WITNESSES_PER_KEY = 4
 # ------------------------------------------------------------------------------------------------ generation
 def gen_cases(run):
     rng = run.rng
-    n_sim = run.n(130, 16 * 500)
-    n_loader = run.n(24, 16 * 60)
+    n_sim = run.n(100, 16 * 500)
+    n_loader = run.n(16, 16 * 60)
     part = os.environ.get("KDV_C09_PART")       # development aid: run only one half of the check
     if part == "loader":
         for _ in range(n_loader):
@@ -113,8 +114,8 @@ def gen_cases(run):
         want = {3: "mix", 13: "bare", 23: "concat_collators", 8: "edit", 18: "edit"}.get(i % 30)     # every family in every run
         top = G.gen_sim_stack(rng, want)
         W = rng.choice([1, 1, 2, 3, 4])     # a single worker is re-created per epoch with a new seed as well
-        b1 = rng.randrange(2 ** 40)
-        yield {"kind": "sim", "top": top, "build_seed": rng.randrange(2 ** 31), "W": W, "base": [b1, b1 + 1000 + rng.randrange(2 ** 40)],
+        b1, b2, pair_class = _base_seed_pair(rng, i)
+        yield {"kind": "sim", "top": top, "build_seed": rng.randrange(2 ** 31), "W": W, "base": [b1, b2], "base_pair": pair_class,
                "alt_rank": rng.randrange(W), "dup_rank": rng.randrange(W), "K": rng.choice([3, 4, 4, 6]), "B": rng.choice([1, 2, 3]),
                "idx_seed": rng.randrange(10 ** 6), "parent_hook": rng.randrange(W) if rng.random() < 0.35 else None,
                "parent_samples": rng.choice([1, 3]) if want == "mix" else rng.choice([None, None, 1, 3])}
@@ -126,8 +127,41 @@ def gen_cases(run):
         yield _loader_case(rng, made_loader)
 
 
+# torch.manual_seed(a) / torch.manual_seed(b) make the DataLoader draw base seeds that are congruent modulo 2**32 (found by search;
+# the first pair gives 7286304267170608698 / 2526331350342825530); the further pairs serve the re-observation of a coincidence
+CONGRUENT_TORCH_SEEDS = [(51199, 55302), (35138, 69010), (74438, 112707)]
+
+
+def _base_seed_pair(rng, i):
+    """two different base seeds for 'different worker seeds -> disjoint streams', biased to the boundary: congruent modulo 2**32 /
+    2**31 / 2**16, differing only in the high 32 bits, s vs s + 2**32 (torch base seeds are 63-bit numbers; the worker seed is
+    base + rank, so the same-rank workers of the two bases inherit the relation)"""
+    b1 = rng.randrange(2 ** 62) if i % 2 else rng.randrange(2 ** 40)
+    cls = ["random", "plus-2^32", "mod-2^32", "high-bits-only", "mod-2^31", "mod-2^16", "random", "mod-2^32"][i % 8]
+    if cls == "random":
+        b2 = b1 + 1000 + rng.randrange(2 ** 40)
+    elif cls == "plus-2^32":
+        b2 = b1 + 2 ** 32
+    elif cls == "mod-2^32":
+        b2 = b1 + 2 ** 32 * rng.randrange(1, 2 ** 29)
+    elif cls == "high-bits-only":
+        b2 = (b1 % 2 ** 32) + 2 ** 32 * rng.randrange(1, 2 ** 30)
+        if b2 == b1:
+            b2 += 2 ** 32
+    elif cls == "mod-2^31":
+        b2 = b1 + 2 ** 31 * (2 * rng.randrange(2 ** 20) + 1)
+    else:
+        b2 = b1 + 2 ** 16 * (2 * rng.randrange(2 ** 30) + 1)
+    return b1, b2, cls
+
+
 def _loader_case(rng, k=0):
     s1 = rng.randrange(2 ** 40)
+    if k % 8 == 1:
+        # the two passes run under torch seeds whose loader base seeds are congruent modulo 2**32; stack with registered collators
+        return {"kind": "loader", "top": G.gen_probe_stack(rng, "collators"), "build_seed": rng.randrange(2 ** 31), "W": [1, 2, 3][(k // 8) % 3],
+                "B": rng.choice([1, 2, 2, 3]), "torch_seed": list(CONGRUENT_TORCH_SEEDS[0]), "torch_pairs": [list(p_) for p_ in CONGRUENT_TORCH_SEEDS],
+                "base": [rng.randrange(2 ** 40)], "parent_hook": None, "parent_samples": None, "idx_seed": rng.randrange(10 ** 6)}
     return {"kind": "loader", "top": G.gen_probe_stack(rng, {2: "bare", 5: "concat_collators", 4: "edit", 7: "shared_cfg"}.get(k % 8)), "build_seed": rng.randrange(2 ** 31), "W": [1, 2, 3, 1, 2, 4][k % 6],      # every worker count in every run, a single worker included
             
             "B": rng.choice([1, 2, 2, 3]), "torch_seed": [s1, s1 + 1 + rng.randrange(2 ** 40)], "base": [rng.randrange(2 ** 40)],
@@ -249,8 +283,8 @@ def observe_sim(spec, shift, stats):
     if interleaved:     # at least one sample of every part
         sizes = [len(p[0]) for p in built.parts]
         idxs = [sum(sizes[:j]) + r.randrange(sizes[j]) for j in range(len(sizes))] + idxs[:max(1, spec["K"] - len(sizes))]
-    b1 = spec["base"][0] + shift * 7919
-    b2 = spec["base"][1] + shift * 104729
+    b1 = spec["base"][0] + shift * 7919      # both bases move together: the relation between them (e.g. congruent modulo
+    b2 = spec["base"][1] + shift * 7919      # 2**32) is part of the case and is kept when a coincidence is re-observed
     workers = [(b1, rk) for rk in range(W)] + [(b2, spec["alt_rank"]), (b1, spec["dup_rank"])]
     obs = []
     for base, rank in workers:
@@ -538,7 +572,10 @@ def evaluate_loader(run, spec):
 
 def observe_loader(run, spec, shift):
     top, W, B = spec["top"], spec["W"], spec["B"]
-    seeds = [spec["torch_seed"][0] + 7919 * shift, spec["torch_seed"][1] + 104729 * shift]
+    if spec.get("torch_pairs"):
+        seeds = list(spec["torch_pairs"][shift % len(spec["torch_pairs"])])
+    else:
+        seeds = [spec["torch_seed"][0] + 7919 * shift, spec["torch_seed"][1] + 104729 * shift]
     _seed_globals(spec["build_seed"])
     col = _Collector()
     ok, built = call_real(col, lambda: S.build_stack(top, ship=True), crash_key="build-crash", what="building the probe stack")
@@ -687,6 +724,12 @@ def _stack_cover(run, spec):
         run.count(f"no_mode_wrapper_{spec['kind']}_cases")
         if any(n["k"] == "root" and n.get("collators") for n in S.stack_nodes(top)):
             run.count("no_mode_wrapper_with_collators_cases")
+    if spec.get("base_pair"):
+        run.cover("base_seed_pair", spec["base_pair"])
+        if spec["base_pair"] != "random":
+            run.count("boundary_base_seed_pair_sim_cases")
+    if spec.get("torch_pairs"):
+        run.count("congruent_base_seed_loader_cases")
     if any(n.get("cfg") for n in S.stack_nodes(top)):
         run.count("seeded_and_unseeded_wrapper_from_one_config_list_cases")
     edits = [(n.get("late") or {}).get("op") or n["edit"]["mode"] for t in S.stack_trees(top) for n in S.tree_nodes(t)
